@@ -942,3 +942,165 @@ func c01slotCopies(c *Ctx, r *Result) {
 	}
 	r.Floor("C01.6", 2)
 }
+
+// ---- additional necessary condition found by the third round of seeded changes ----
+
+func init() {
+	reg := registry["C01"]
+	reg.Meta.Rules["C01.8"] = "odometer loops over chunk rows carry at the same extents whose product is the number of rows"
+	reg.Meta.Rules["C01.9"] = "chunk dimensions in the layout message: written and read at the same width under every superblock version the library writes (shared with C11.6)"
+	reg.Rules = append(reg.Rules, c01odometers, func(c *Ctx, r *Result) { c11chunkDimWidth(c, r, "C01.9") })
+}
+
+// c01odometers: a counter array stepped like an odometer (idx[i]++; if idx[i] < L[i] { break }; idx[i] = 0) inside a loop that
+// runs `rows` times, rows being a product of E[i], must carry at L = E: otherwise the rows are taken from positions of a
+// differently shaped box.
+func c01odometers(c *Ctx, r *Result) {
+	n := 0
+	for _, fn := range c.LibFuncs() {
+		pk := shortPkg(fnPkgPath(fn))
+		if pk != "hdf5" && pk != "writer" && pk != "core" {
+			continue
+		}
+		// carry tests: If( (load idx[i]) + 1 < load L[i] ) where the incremented value is stored back to idx[i]
+		for _, b := range fn.Blocks {
+			ifi, ok := b.Instrs[len(b.Instrs)-1].(*ssa.If)
+			if !ok {
+				continue
+			}
+			cmp, ok := ifi.Cond.(*ssa.BinOp)
+			if !ok || cmp.Op != token.LSS {
+				continue
+			}
+			inc, ok := cmp.X.(*ssa.BinOp)
+			if !ok || inc.Op != token.ADD {
+				// the comparison may re-load idx[i] after the store
+				if ld, isLd := isLoad(cmp.X); isLd {
+					if ia, isIA := ld.X.(*ssa.IndexAddr); isIA {
+						for i := instrIndex(ld) - 1; i >= 0; i-- {
+							if st, isSt := ld.Block().Instrs[i].(*ssa.Store); isSt {
+								if ia2, ok2 := st.Addr.(*ssa.IndexAddr); ok2 && ia2.X == ia.X && ia2.Index == ia.Index {
+									inc, _ = st.Val.(*ssa.BinOp)
+									break
+								}
+							}
+						}
+					}
+				}
+				if inc == nil || inc.Op != token.ADD {
+					continue
+				}
+			}
+			one, isOne := constInt(inc.Y)
+			ldIdx, isLd := isLoad(inc.X)
+			if !isOne || one != 1 || !isLd {
+				continue
+			}
+			iaIdx, isIA := ldIdx.X.(*ssa.IndexAddr)
+			if !isIA {
+				continue
+			}
+			// stored back?
+			stored := false
+			for _, ref := range *inc.Referrers() {
+				if st, isSt := ref.(*ssa.Store); isSt {
+					if ia2, ok2 := st.Addr.(*ssa.IndexAddr); ok2 && ia2.X == iaIdx.X {
+						stored = true
+					}
+				}
+			}
+			ldL, isLdL := isLoad(cmp.Y)
+			if !stored || !isLdL {
+				continue
+			}
+			iaL, isIAL := ldL.X.(*ssa.IndexAddr)
+			if !isIAL {
+				continue
+			}
+			// enclosing counted loop: r < rows with rows a running product of E[...]
+			E := odometerRowsSource(fn, b)
+			if E == nil {
+				continue
+			}
+			n++
+			ok = sameSliceValue(iaL.X, E)
+			r.Check(ok, "C01.8", c.Name(fn)+"#odometer-carries-at-row-extents", c.InstrPos(ifi), "the row counter wraps at "+sliceName(iaL.X)+"[i] while the number of rows is the product of "+sliceName(E)+"[i]: both must be the same box")
+		}
+	}
+	if n < 1 {
+		r.Errorf("C01.8: no odometer loop found (expandEdgeChunk was expected)")
+	}
+	r.Floor("C01.8", 1)
+}
+
+func sliceName(v ssa.Value) string {
+	switch x := v.(type) {
+	case *ssa.Parameter:
+		return x.Name()
+	case *ssa.UnOp:
+		if f, _ := fieldOfAddr(x.X); f != nil {
+			return f.Name()
+		}
+	case *ssa.Call:
+		if f := x.Call.StaticCallee(); f != nil {
+			return f.Name() + "()"
+		}
+	}
+	return v.Name()
+}
+
+// odometerRowsSource: blk lies in a loop `for r < rows` where rows = Π E[k] (a phi multiplied by loads of E in another loop);
+// returns E.
+func odometerRowsSource(fn *ssa.Function, blk *ssa.BasicBlock) ssa.Value {
+	for _, h := range fn.Blocks {
+		if !h.Dominates(blk) || !reachableFrom(blk, nil)[h] {
+			continue
+		}
+		ifi, ok := h.Instrs[len(h.Instrs)-1].(*ssa.If)
+		if !ok {
+			continue
+		}
+		cmp, ok := ifi.Cond.(*ssa.BinOp)
+		if !ok || cmp.Op != token.LSS {
+			continue
+		}
+		if _, isPhi := cmp.X.(*ssa.Phi); !isPhi {
+			continue
+		}
+		// rows: a phi (exit value of a product loop) whose back edge is phi * load E[k]
+		var find func(v ssa.Value, d int) ssa.Value
+		find = func(v ssa.Value, d int) ssa.Value {
+			if d > 4 {
+				return nil
+			}
+			switch x := v.(type) {
+			case *ssa.Phi:
+				for _, e := range x.Edges {
+					if mul, ok := e.(*ssa.BinOp); ok && mul.Op == token.MUL {
+						for _, opnd := range []ssa.Value{mul.X, mul.Y} {
+							if ld, ok := isLoad(opnd); ok {
+								if ia, ok := ld.X.(*ssa.IndexAddr); ok {
+									return ia.X
+								}
+							}
+						}
+					}
+				}
+				for _, e := range x.Edges {
+					if e != v {
+						if s := find(e, d+1); s != nil {
+							return s
+						}
+					}
+				}
+			case *ssa.Convert:
+				return find(x.X, d+1)
+			}
+			return nil
+		}
+		if E := find(cmp.Y, 0); E != nil {
+			return E
+		}
+	}
+	return nil
+}
